@@ -15,6 +15,7 @@ import z3
 
 Z3_TIMEOUT_MS = int(os.environ.get("PYVC_Z3_TIMEOUT_MS", "10000"))
 CVC5_TIMEOUT_S = int(os.environ.get("PYVC_CVC5_TIMEOUT_S", "20"))
+MBQI = os.environ.get("PYVC_MBQI", "0") == "1"
 JOBS = int(os.environ.get("PYVC_JOBS", str(min(16, os.cpu_count() or 4))))
 
 
@@ -34,7 +35,22 @@ def _symbols(e, acc, seen):
             continue
         if z3.is_app(t):
             d = t.decl()
-            if d.kind() == z3.Z3_OP_UNINTERPRETED:
+            if d.kind() == z3.Z3_OP_UNINTERPRETED and d.name() != "pattern":
+                acc.add(d.name())
+            stack.extend(t.children())
+    return acc
+
+
+def _consts(e, acc, seen):
+    stack = [e]
+    while stack:
+        t = stack.pop()
+        if t.get_id() in seen:
+            continue
+        seen.add(t.get_id())
+        if z3.is_app(t):
+            d = t.decl()
+            if d.kind() == z3.Z3_OP_UNINTERPRETED and d.arity() == 0:
                 acc.add(d.name())
             stack.extend(t.children())
     return acc
@@ -60,7 +76,9 @@ class AxiomIndex:
                     trigs = [set(body)]
             else:
                 _symbols(f, body, set())
-                trigs = [set(body)]
+                consts = set()
+                _consts(f, consts, set())
+                trigs = [consts if consts else set(body)]
             self.items.append((name, f, trigs, body))
 
     def relevant(self, formulas):
@@ -117,6 +135,11 @@ def _worker(job):
     name, text, timeout_ms, expect = job
     t0 = time.time()
     try:
+        # E-matching only: every quantified hypothesis carries explicit patterns; model-based instantiation
+        # mostly spins on satisfiable queries.  With mbqi off a saturated, contradiction-free search ends
+        # quickly in `unknown (incomplete quantifiers)` with a candidate model.
+        z3.set_param("smt.mbqi", MBQI)
+        z3.set_param("smt.auto_config", False)
         ctx = z3.Context()
         s = z3.Solver(ctx=ctx)
         s.set("timeout", timeout_ms)
@@ -232,7 +255,9 @@ def discharge(vcs, axiom_index, jobs=JOBS, timeout_ms=Z3_TIMEOUT_MS, keep_smt=3,
         smt = texts[k] if (k < keep_smt or res != "unsat") else None
         if vc.expect == "sat":
             if res == "unsat":
-                out.append(Verdict(vc, "vacuous", r["solver"], r["time"], "hypotheses are contradictory", smt2=smt))
+                # an unreachable path is fine; a contradictory precondition is not
+                st_ = "unreachable" if vc.name.startswith("path") else "vacuous"
+                out.append(Verdict(vc, st_, r["solver"], r["time"], "hypotheses are contradictory", smt2=smt if st_ == "vacuous" else None))
             else:
                 out.append(Verdict(vc, "covered", r["solver"], r["time"], res))
             continue
